@@ -375,6 +375,40 @@ fn gen_program(rng: &mut Rng, tag: &str, roots: usize) -> Program {
         let root = if g.rng.below(5) == 0 { Child::Enum(g.entry_enum(depth, true)) } else { Child::Struct(g.strukt(depth.max(force_long as u32 * 2), true, force_long)) };
         g.p.roots.push(root);
     }
+    // names whose total length sits on and around the 100-byte limit of the compile-time string
+    // machinery: a one-byte field behind one flatten prefix (exact or inflectable) of L-1 bytes, and
+    // behind a chain of two prefixes, for L = 98..=104
+    for total in 98usize..=104 {
+        for shape in 0..3 {
+            let leaf = g.p.structs.len();
+            g.p.structs.push(StructDef {
+                name: format!("S{}_{leaf}", g.tag),
+                rename_all: Style::Preserve,
+                prefix: Pfx::None,
+                mode: "",
+                fields: vec![FieldDef { ident: "v".into(), kind: FieldKind::Plain { ty: Ty::U64, optional: false, name: None, unit: None, sample_group: false } }],
+            });
+            let pad = |n: usize, c: char| -> String { std::iter::repeat_n(c, n).collect() };
+            let mut child = Child::Struct(leaf);
+            let chain: Vec<Pfx> = match shape {
+                0 => vec![Pfx::Exact(pad(total - 1, 'b'))],
+                1 => vec![Pfx::Infl(pad(total - 1, 'c'))],
+                _ => vec![Pfx::Exact(pad(total - 1 - 50, 'd')), Pfx::Exact(pad(50, 'e'))],
+            };
+            for prefix in chain {
+                let idx = g.p.structs.len();
+                g.p.structs.push(StructDef {
+                    name: format!("S{}_{idx}", g.tag),
+                    rename_all: Style::Preserve,
+                    prefix: Pfx::None,
+                    mode: "",
+                    fields: vec![FieldDef { ident: "inner".into(), kind: FieldKind::Flatten { child, prefix } }],
+                });
+                child = Child::Struct(idx);
+            }
+            g.p.roots.push(child);
+        }
+    }
     sanitize_subfields(&mut g.p);
     g.p
 }
